@@ -1,0 +1,27 @@
+// Copyright 2024 The Outline Authors
+//
+// Licensed under the Apache License, Version 2.0 (the "License");
+// you may not use this file except in compliance with the License.
+// You may obtain a copy of the License at
+//
+//      https://www.apache.org/licenses/LICENSE-2.0
+//
+// Unless required by applicable law or agreed to in writing, software
+// distributed under the License is distributed on an "AS IS" BASIS,
+// WITHOUT WARRANTIES OR CONDITIONS OF ANY KIND, either express or implied.
+// See the License for the specific language governing permissions and
+// limitations under the License.
+
+//go:build verif
+
+package prometheus
+
+import "time"
+
+// VerifSetNow replaces the clock of the collectors (the package's stubbable `now`), for the
+// verification harness only (build tag `verif`). It returns a function restoring the previous clock.
+func VerifSetNow(f func() time.Time) (restore func()) {
+	old := now
+	now = f
+	return func() { now = old }
+}
